@@ -12,6 +12,7 @@ RULE = ("histories: every sequence of <=D public mutations/queries on one Measur
         "single terms with each coefficient (also as bare PauliTerm), all-integer coefficients, small (1e-5) and large (1e6) coefficients; Bessel on/off. non-trivial = at least two distinct bitstrings among the shots and an operator with a "
         "non-constant term; distinct = (shots list, operator block)")
 RULE += ' Also: marked qubits given as tuple / set / frozenset / dict keys / PauliTerm.qubits / one-shot iterators and generators; bitstrings of 33..130 bits.'
+RULE += ' Round 6: shots of 5-7 bits with operators over every subset (unevenly spaced qubit triples / quadruples).'
 RULE += ' Round 6: ONE operator object through every history of <= 3 evaluations (values, parity tallies, frequencies through term.qubits, is_ising, simplify, str).'
 RULE += ' Round 5: marked qubits as one-shot iterators / generators / map objects.'
 ASSUMPTIONS = ["exact rational arithmetic (fractions.Fraction) as reference", "floating point results compared at 1e-12 relative to the natural scale of each entry (|c_i|, |c_i c_j|, |c_i c_j|/denominator)"]
@@ -436,6 +437,18 @@ def run(run):
             for b0 in range(0, nops, B):
                 cases.append({"shots": shots, "w": w, "T": T, "block": [b0, min(nops, b0 + B)]})
             ccases.append({"shots": shots, "w": w})
+    # wider shots (5-7 bits; a fixed asymmetric shot list): operators over EVERY subset of <= 4 qubits - unevenly spaced triples / quadruples included - singly (T = 1 through the full
+    # operator alphabet) and in pairs drawn from a 14-subset pool; counts / frequencies / parity tallies on every subset of width 5 and 6
+    for w in (5, 6, 7):
+        sh = []
+        for j in range(9 if w < 7 else 7):
+            b = [int((j * (q + 3) + (q * q) // 2 + (j >> (q % 3))) % 3 == 0) for q in range(w)]
+            sh += [b] * (1 + j % 3)
+        nops = len(operators(w, 1))
+        for b0 in range(0, nops, 60):
+            cases.append({"shots": sh, "w": w, "T": 1, "block": [b0, min(nops, b0 + 60)]})
+        if w <= 6:
+            ccases.append({"shots": sh[:7], "w": w})
     secs = [Section("statistics", cases, stats_case, desc="get_expectation_values: values, correlations, covariances (Bessel on/off) vs Fractions"),
             Section("counts", ccases, counts_case, desc="counts/from_counts/add_counts/distribution/frequencies/parity tallies on every multiset"),
             Section("nonising", [{"p": p, "sum": s} for p in "XY" for s in (0, 1)], nonising_case, desc="non-Ising operators are refused with TypeError")]
